@@ -535,7 +535,164 @@ def c26_driver(chk, pid, tier, seed, spec, t0):
     return chk.finish(pid, tier, seed, spec, t0, m, notes)
 
 
-CUSTOM = {"C14": c14_driver, "C24": c24_driver, "C26": c26_driver}
+PROPS["C27"] = P("exploration",
+    GEN + "each case is executed by the Rust engine over GraphAdapter (tfv C27-export) and, through the pytrustfall extension module built from "
+    "/repo's working tree and imported by CPython 3.11, over a Python adapter mirroring GraphAdapter line by line on the same dataset; rows "
+    "must be equal in value AND type (bool vs int, int vs float, sign of zero), integers travel as JSON numbers (exact in Python). Plus a "
+    "conversion battery in both directions: i64::MIN..u64::MAX, 2**64, -2**63-1, bool/int/float confusion, inf/nan, nested and mixed "
+    "lists, tuples, dicts, bytes (valid ones must select exactly the matching vertices, non-convertible ones must raise). thorough adds a run "
+    "under valgrind memcheck counting only errors whose stack passes through the extension module. distinct_nontrivial = distinct query skeletons with rows",
+    quick={"cases": 60, "timeout": 600, "workers": 8, "valgrind_cases": 0},
+    thorough={"cases": 2500, "timeout": 2400, "workers": 16, "valgrind_cases": 40},
+    floors={"evaluations": 300, "distinct": 60, "counters": {"rows_compared": 300, "battery_accepted": 40, "battery_rejected": 15}},
+    technique="differential runtime monitor across the PyO3 FFI boundary (Rust engine vs Python bindings) + valgrind memcheck on the extension module",
+    level_note="trusted base: the Python mirror adapter, the harness generators; CPython 3.11; valgrind sees only the executions driven")
+
+
+def c27_driver(chk, pid, tier, seed, spec, t0):
+    import os, subprocess, json, shutil, re
+    t = spec[tier]
+    m = {"evaluations": 0, "nontrivial": set(), "counters": {}, "sets": {}, "samples": [], "violations": [], "inconclusive": [], "crashed": [], "binary": None}
+    notes = {}
+    binary = chk.build()
+    if binary is None:
+        print(f"INCONCLUSIVE property={pid} reason=harness build failed")
+        return 2
+    py = "/root/.pyenv/versions/3.11.7/bin/python3"
+    if not os.path.exists(py):
+        py = shutil.which("python3.11") or shutil.which("python3")
+    # build the extension module from /repo's working tree
+    tdir = os.path.join(chk.WORK, "target-py")
+    env = dict(chk.ENV, CARGO_TARGET_DIR=tdir, PYO3_PYTHON=py)
+    p = subprocess.run(["cargo", "build", "-p", "pytrustfall", "--offline", "--release"], cwd="/repo", env=env, text=True,
+                       stdout=subprocess.PIPE, stderr=subprocess.PIPE)
+    so = os.path.join(tdir, "release", "libtrustfall.so")
+    if p.returncode != 0 or not os.path.exists(so):
+        chk.log(p.stderr[-3000:])
+        m["inconclusive"].append("pytrustfall does not build")
+        return chk.finish(pid, tier, seed, spec, t0, m, notes)
+    pkg_parent = os.path.join(chk.WORK, "py")
+    pkg = os.path.join(pkg_parent, "trustfall")
+    shutil.rmtree(pkg, ignore_errors=True)
+    shutil.copytree("/repo/pytrustfall/trustfall", pkg, ignore=shutil.ignore_patterns("__pycache__", "*.so"))
+    ext = subprocess.run([py, "-c", "import sysconfig;print(sysconfig.get_config_var('EXT_SUFFIX'))"], text=True, stdout=subprocess.PIPE).stdout.strip() or ".cpython-311-x86_64-linux-gnu.so"
+    modpath = os.path.join(pkg, "trustfall" + ext)
+    shutil.copy(so, modpath)
+    outdir = os.path.join(chk.WORK, "out", pid)
+    shutil.rmtree(outdir, ignore_errors=True)
+    os.makedirs(outdir, exist_ok=True)
+    os.makedirs(os.path.join(chk.REPLAYS, pid), exist_ok=True)
+    driver = os.path.join(chk.VERIF, "py", "driver.py")
+
+    # stage 1: export (Rust side), in parallel
+    workers = t["workers"]
+    exps = []
+    for i in range(workers):
+        cj = os.path.join(outdir, f"cases{i}.json")
+        exps.append((i, cj, subprocess.Popen([binary, "C27-export", "--seed", str(seed * 1000 + i), "--cases", str(t["cases"]), "--export", cj,
+                                              "--out", os.path.join(outdir, f"export{i}.json")], cwd=chk.VERIF, env=chk.ENV,
+                                             stdout=subprocess.PIPE, stderr=subprocess.PIPE, text=True)))
+    ok_exports = []
+    for i, cj, pr in exps:
+        try:
+            pr.communicate(timeout=t["timeout"])
+        except subprocess.TimeoutExpired:
+            pr.kill()
+            m["inconclusive"].append(f"export worker {i} hit the watchdog")
+            continue
+        if pr.returncode == 0 and os.path.exists(cj):
+            ok_exports.append((i, cj))
+            try:
+                rep = json.load(open(os.path.join(outdir, f"export{i}.json")))
+                for k, v in rep.get("counters", {}).items():
+                    m["counters"]["rust:" + k] = m["counters"].get("rust:" + k, 0) + v
+            except Exception:
+                pass
+        else:
+            m["inconclusive"].append(f"export worker {i} failed rc={pr.returncode}")
+
+    # stage 2: the Python side, one interpreter per export (worker 0 also runs the battery)
+    penv = dict(os.environ, PYTHONDONTWRITEBYTECODE="1")
+    runs = []
+    for i, cj in ok_exports:
+        rj = os.path.join(outdir, f"report{i}.json")
+        cmd = [py, driver, pkg_parent, cj, rj] + (["--battery"] if i == ok_exports[0][0] else [])
+        runs.append((i, cj, rj, subprocess.Popen(cmd, cwd=chk.VERIF, env=penv, stdout=subprocess.PIPE, stderr=subprocess.PIPE, text=True)))
+
+    def take(rep, i, stage):
+        m["evaluations"] += rep.get("evaluations", 0)
+        m["counters"]["rows_compared"] = m["counters"].get("rows_compared", 0) + rep.get("rows_compared", 0)
+        for k, v in rep.get("value_classes", {}).items():
+            m["counters"]["value-class:" + k] = m["counters"].get("value-class:" + k, 0) + v
+        for k, v in rep.get("battery", {}).items():
+            m["counters"]["battery_" + k] = m["counters"].get("battery_" + k, 0) + v
+        m["nontrivial"].update(rep.get("skeleton_list", []))
+        if len(m["samples"]) < 3:
+            m["samples"].extend(rep.get("samples", [])[:1])
+        for v in rep.get("violations", []):
+            h = re.sub(r"[^A-Za-z0-9]+", "-", v["signature"])[:80]
+            path = os.path.join(chk.REPLAYS, pid, f"{h}.json")
+            json.dump({"signature": v["signature"], "what": v["what"], "witness": v["witness"], "seed": seed, "worker": i, "stage": stage,
+                       "rerun": f"{py} {driver} {pkg_parent} <cases.json from: tfv C27-export --seed {seed * 1000 + i} --cases {t['cases']}> report.json --battery"},
+                      open(path, "w"), indent=1, default=repr)
+            m["violations"].append({"signature": v["signature"], "what": v["what"], "replay": path})
+
+    for i, cj, rj, pr in runs:
+        try:
+            so_, se_ = pr.communicate(timeout=t["timeout"])
+        except subprocess.TimeoutExpired:
+            pr.kill()
+            m["inconclusive"].append(f"python worker {i} hit the watchdog")
+            continue
+        if pr.returncode != 0 or not os.path.exists(rj):
+            # interpreter died (abort / segfault inside the extension module counts against the property)
+            path = os.path.join(chk.REPLAYS, pid, f"python-crash-worker{i}.txt")
+            open(path, "w").write(f"rc={pr.returncode}\n{se_[-6000:]}")
+            if pr.returncode is not None and pr.returncode < 0:
+                m["violations"].append({"signature": f"C27:interpreter-killed-by-signal:{-pr.returncode}", "what": se_[-300:], "replay": path})
+            else:
+                m["inconclusive"].append(f"python worker {i} failed rc={pr.returncode}: {se_[-300:]}")
+            continue
+        take(json.load(open(rj)), i, "plain")
+
+    # stage 3 (thorough): valgrind memcheck over a small slice; only errors through the extension module count
+    if t["valgrind_cases"] and ok_exports:
+        i, cj = ok_exports[0]
+        rj = os.path.join(outdir, "report-valgrind.json")
+        vlog = os.path.join(outdir, "valgrind.log")
+        cmd = ["valgrind", "--tool=memcheck", "--error-limit=no", "--num-callers=30", f"--log-file={vlog}", py, driver, pkg_parent, cj, rj,
+               "--battery", "--limit", str(t["valgrind_cases"])]
+        try:
+            pr = subprocess.run(cmd, cwd=chk.VERIF, env=dict(penv, PYTHONMALLOC="malloc"), stdout=subprocess.PIPE, stderr=subprocess.PIPE, text=True, timeout=t["timeout"])
+            text = open(vlog, errors="replace").read() if os.path.exists(vlog) else ""
+            blocks = re.split(r"\n==\d+== \n", text)
+            ours = [b for b in blocks if re.search(r"Invalid (read|write)|uninitialised|Invalid free|Mismatched free|definitely lost", b)
+                    and ("trustfall.cpython" in b or "libtrustfall" in b) and not re.search(r"definitely lost", b)]
+            allerr = [b for b in blocks if re.search(r"Invalid (read|write)|uninitialised|Invalid free|Mismatched free", b)]
+            notes["valgrind"] = {"cases": t["valgrind_cases"], "error_blocks_total": len(allerr), "error_blocks_through_extension_module": len(ours), "rc": pr.returncode}
+            if pr.returncode != 0 or not os.path.exists(rj):
+                m["inconclusive"].append(f"valgrind stage: interpreter rc={pr.returncode}")
+            else:
+                vrep = json.load(open(rj))
+                notes["valgrind"]["evaluations"] = vrep.get("evaluations", 0)
+                if vrep.get("evaluations", 0) < 10:
+                    m["inconclusive"].append("valgrind stage ran fewer than 10 evaluations")
+                for v in vrep.get("violations", []):
+                    m["violations"].append({"signature": v["signature"], "what": v["what"] + " (under valgrind)", "replay": rj})
+            if ours:
+                path = os.path.join(chk.REPLAYS, pid, "valgrind-errors.txt")
+                open(path, "w").write("\n\n".join(ours[:10]))
+                first = ours[0]
+                kind = re.search(r"(Invalid read|Invalid write|Invalid free|Mismatched free|uninitialised)", first).group(1)
+                fr = re.findall(r"(?:at|by) 0x[0-9A-F]+: (\S+) \(in [^)]*trustfall", first)
+                m["violations"].append({"signature": f"C27:memcheck:{kind}:{fr[0] if fr else '?'}", "what": first.strip().splitlines()[0][:200], "replay": path})
+        except subprocess.TimeoutExpired:
+            m["inconclusive"].append("valgrind stage hit the watchdog")
+    m["counters"] = dict(m["counters"])
+    return chk.finish(pid, tier, seed, spec, t0, m, notes)
+
+
+CUSTOM = {"C14": c14_driver, "C24": c24_driver, "C26": c26_driver, "C27": c27_driver}
 
 # reasons for properties that are not claimed (kept current; empty when everything is claimed)
 NOT_CLAIMED = {}
